@@ -541,6 +541,12 @@ func sc(v Value) *Term {
 
 func (m *Machine) binop(op token.Token, x, y Value, t types.Type, xt types.Type) Value {
 	c := m.ctx
+	if _, ok := x.(Opaque); ok {
+		return Opaque{"arithmetic on an opaque (floating point) value"}
+	}
+	if _, ok := y.(Opaque); ok {
+		return Opaque{"arithmetic on an opaque (floating point) value"}
+	}
 	// strings
 	if sx, ok := x.(StrV); ok {
 		sy := y.(StrV)
@@ -705,6 +711,12 @@ func (m *Machine) binop(op token.Token, x, y Value, t types.Type, xt types.Type)
 
 func (m *Machine) convert(v Value, from, to types.Type) Value {
 	c := m.ctx
+	if _, ok := v.(Opaque); ok {
+		return v
+	}
+	if b, ok := to.Underlying().(*types.Basic); ok && b.Info()&types.IsFloat != 0 {
+		return Opaque{"conversion to floating point"}
+	}
 	if sv, ok := v.(StrV); ok {
 		if _, ok := to.Underlying().(*types.Slice); ok {
 			return sv // handled by caller (needs alloc)
